@@ -26,8 +26,8 @@ ASSUMPTIONS = [
 ]
 
 
-def fanout(F, mixed=False):
-    nodes = [T.fn(f"f{i}", ["e0"], [f"x{i}"], **({} if not (mixed and i == 0) else {"sync": True})) for i in range(F)]
+def fanout(F, mixed=False, gen=False):
+    nodes = [T.fn(f"f{i}", ["e0"], [f"x{i}"], **({} if not (mixed and i == 0) else {"sync": True}), **({"gen": True} if gen and i % 2 == 0 else {})) for i in range(F)]
     nodes.append(T.fn("join", [f"x{i}" for i in range(F)], ["j0"]))
     return T.prog(nodes)
 
@@ -67,6 +67,7 @@ def _cases(tier):
     for F in Fs:
         yield (f"fanout{F}", fanout(F), e, {})
         yield (f"fanout{F}-mixed", fanout(F, True), e, {})
+        yield (f"fanout{F}-generators", fanout(F, False, True), e, {})
     for d in (1, 2) if tier == "quick" else (1, 2, 3):
         yield (f"nested{d}", nested(d), e, {})
     if tier == "thorough":
